@@ -203,7 +203,9 @@ def run_translator(ck):
            "map fp_name (filter (fun p => negb (frame_ok p)) gen_frame_progs)).\nPrint FPM.\n"
            "Definition LSW := Eval vm_compute in (ce_all_limited gen_content_encodings gen_ce_body_wraps, gen_ce_body_wraps).\nPrint LSW.\n"
            "Definition DPM := Eval vm_compute in (dprog_eqb gen_prom_decode_prog prom_prog, dprog_eqb gen_lokiproto_decode_prog lokiproto_prog).\nPrint DPM.\n"
-           "Definition DFP := Eval vm_compute in (failing_probes gen_prom_decode_prog, failing_probes gen_lokiproto_decode_prog).\nPrint DFP.\n")
+           "Definition DFP := Eval vm_compute in (failing_probes gen_prom_decode_prog, failing_probes gen_lokiproto_decode_prog).\nPrint DFP.\n"
+           "Definition PRF := Eval vm_compute in (profile_ok gen_on_profile_prog gen_profile_fields gen_profile_cols gen_profile_cols_unknown, "
+           "profile_request_cols gen_on_profile_prog gen_profile_cols 1).\nPrint PRF.\n")
     txt = txt.replace("model.IngestPipe gen.GenGoroutinesWriter", "model.IngestPipe model.IngestFraming model.IngestShared gen.GenGoroutinesWriter")
     ok, out = ck.coq_make(["model/IngestRobust.vo", "model/IngestPipe.vo", "model/IngestFraming.vo", "model/IngestShared.vo", "gen/GenGoroutinesWriter.vo"])
     if not ok:
@@ -287,6 +289,9 @@ def run_translator(ck):
     ck.obligation("the loops of promMetricsProtoDec.Decode and logsProtoDec.Decode, regenerated as programs over slice lengths, are the modelled programs "
                   "(decoder_loops_match_source; remote_write_decoder_keeps_the_contract is about them)", val("DPM").replace(" ", "") == "(true,true)",
                   "(remote write, Loki protobuf) = %s (see coq/gen/GenGoroutinesWriter.v, gen_prom_decode_prog / gen_lokiproto_decode_prog)" % val("DPM"))
+    ck.obligation("onProfile fills every slice field of ProfileData by exactly one statement (eight per row, five per request), sends and resets under the size test; "
+                  "every column of the profile insert service reads one field the way it is filled (on_profile_fills_every_column_once)", val("PRF").startswith("(true"),
+                  "(profile_ok, what a one-row request appends to the 13 columns) = " + val("PRF"))
     dfp = val("DFP").replace("%N", "")
     probes = parse_probes(dfp)
     if dfp.replace(" ", "") != "([],[])" and probes in (None, ([], [])):
@@ -852,7 +857,7 @@ def run_pipe(ck):
 
 
 CKIND = {"prom": "CProm", "lokiproto": "CLokiProto", "lokijson": "CLokiJson", "ddmetrics": "CDdMetrics"}
-SHTABLE = {"samples_v3": 3, "time_series": 4}
+SHTABLE = {"samples_v3": 3, "time_series": 4, "profiles_input": 5}
 SHARED_CORPUS = os.path.join(HERE, "corpus", "C05", "shared.jsonl")
 
 
@@ -873,6 +878,13 @@ def shcase_to_coq(c):
     return ("{| sh_id := %d; sh_a := %s; sh_b := %s; sh_a_is_loki := %s; sh_obs := {| so_a := %s; so_b := %s; so_blocks := %s; so_a_lines := %d%%N |} |}" % (
         c["id"], client(c["a"]), client(c["b"]), b(c["a"]["kind"] in ("lokijson", "lokiproto")), status_outcome(o["a_status"]), status_outcome(o["b_status"]),
         coq_list(blocks), o.get("a_lines_stored", 0)))
+
+
+def shpcase_to_coq(c):
+    o = c["obs"]
+    blocks = ["(%d, %s, %s)" % (SHTABLE.get(x["table"], 9), b(x["refused"]), coq_list(["%d%%N" % n for n in x["cols"]])) for x in (o.get("blocks") or [])]
+    return "{| shp_id := %d; shp_a_bad := %s; shp_b_bad := %s; shp_obs := {| so_a := %s; so_b := %s; so_blocks := %s; so_a_lines := 0%%N |} |}" % (
+        c["id"], b(bool(c["a"].get("bad"))), b(bool(c["b"].get("bad"))), status_outcome(o["a_status"]), status_outcome(o["b_status"]), coq_list(blocks))
 
 
 def run_shared(ck):
@@ -937,9 +949,11 @@ def run_shared(ck):
         txt = ("From Coq Require Import List String Ascii ZArith NArith Bool.\n"
                "From Qryn Require Import model.IngestRobust model.IngestPipe model.IngestShared gen.GenGoroutinesWriter.\n"
                "Import ListNotations.\nOpen Scope Z_scope.\n"
-               "Definition shcases : list shcase := [\n  " + ";\n  ".join(shcase_to_coq(c) for c in part) + "].\n"
-               "Definition M := Eval vm_compute in sh_mismatches gen_on_entries_cols gen_spl_fields gen_tsd_fields gen_prom_decode_prog gen_lokiproto_decode_prog shcases.\nPrint M.\n"
-               "Definition V := Eval vm_compute in sh_spec_violations shcases.\nPrint V.\n")
+               "Definition shcases : list shcase := [\n  " + ";\n  ".join(shcase_to_coq(c) for c in part if c["a"]["kind"] != "pprof") + "].\n"
+               "Definition shpcases : list shpcase := [\n  " + ";\n  ".join(shpcase_to_coq(c) for c in part if c["a"]["kind"] == "pprof") + "].\n"
+               "Definition M := Eval vm_compute in (sh_mismatches gen_on_entries_cols gen_spl_fields gen_tsd_fields gen_prom_decode_prog gen_lokiproto_decode_prog shcases "
+               "++ shp_mismatches gen_on_profile_prog gen_profile_cols shpcases)%list.\nPrint M.\n"
+               "Definition V := Eval vm_compute in (sh_spec_violations shcases ++ shp_spec_violations shpcases)%list.\nPrint V.\n")
         rc, out = ck.coq_eval("C05_shared_%d" % (k // shard), txt)
         flat = " ".join(out.split())
         m = re.search(r"M = \[(.*?)\]\s*: list Z", flat)
